@@ -32,16 +32,20 @@ def main():
     ndet = sum(1 for r in rows if "| reported |" in r)
     txt = ["## 13. Seeded breaking changes and which checks catch them", "",
            "Independent sub-agents were given only the text of one property and a scratch worktree, and asked for changes that break the property while the pinned suite still passes "
-           "(two rounds; the second round asked for interactions between features, state left by earlier calls, unusual legal values, error paths, cooperating edits). "
+           "(three rounds of 40; the second round asked for interactions between features, state left by earlier calls, unusual legal values, error paths, cooperating edits; the third for "
+           "code sites, backends and triggers the earlier rounds were unlikely to have tried). "
            "Each change was confirmed in a scratch worktree by `tools/seed_import.py` (demo passes unchanged, pinned suite 156 passed with the change, demo fails with the change) and is kept under "
            "`seeded/<name>/` (patch.diff, demo.py, meta.json). `tools/seed_eval.py` applies each patch to a scratch worktree (never /repo), points the quick check of its property at that tree (`AW_REPO`) "
            "and records the outcome. **%d of %d seeded changes are reported by the quick check of their own property** on the current machinery." % (ndet, len(rows)), "",
-           "First-round evaluation missed 9 of 40 and the second round 14 of 40 before strengthening; what was added in response: runs of calls without intermediate reads judged as one batch "
+           "On first evaluation the checks of the time missed 9 of 40 (round 1), 14 of 40 (round 2) and 8 of 40 (round 3); every miss was analysed and the generators / judges strengthened until it was reported "
+           "(never by special-casing the seeded input). What was added in response: runs of calls without intermediate reads judged as one batch "
            "(lazy-commit / rollback / cache interactions), total projection (an unreadable bucket is an observation, not a harness crash), deletes of ids that live in another bucket, "
            "out-of-contract and absurd ids ending a no-read run, stale `Bucket` handles described in every projection, bucket re-creation in the ownership model, window edges placed at the ends of "
            "long events, raising operations / bulk-upsert runs / migration starts / day-scale clock ticks in the durability histories, the sharper observed-flush rule of C18, a twin bucket fed the same "
            "heartbeat stream, variable re-use and re-read programs, faults after `RETURN`, comparison of every `query_bucket` return with a direct read, in-place mutation between two serialisations, "
-           "multi-thousand-event legacy buckets, one event spanning many, list-valued merge keys, inline / out-of-order TOML tables.", "",
+           "multi-thousand-event legacy buckets, one event spanning many, list-valued merge keys, inline / out-of-order TOML tables; after round 3: pulsetimes whose product with 1000 is inexact in floating point, "
+           "heartbeat streams at 6 h per tick (merged events beyond 24 h), duplicate-create failures in durability histories, the same object repeated in a bulk list, instants before the epoch written as 1970 local times, "
+           "multi-day durations in sorting, two-token regexes (adjacent tokens inside one value), leaves whose text coincides across types.", "",
            "| seeded change | property | what it needs in order to manifest | quick check | first reported line |", "|---|---|---|---|---|"] + rows + ["",
            "### Property-preserving changes (must stay silent)", "",
            "`tools/benign_eval.py` applies each of these to a scratch worktree, runs the pinned suite (must pass) and the listed quick checks (must exit 0).", "",
